@@ -610,3 +610,12 @@ CORPUS += [
     V("C19", "fjsp-reader-pad-mask-gt", FPF, "pad_mask = pad_mask.ge(total_ops).unsqueeze(0)", "pad_mask = pad_mask.gt(total_ops).unsqueeze(0)", "C19.c"),
     V("C19", "checkpoint-hook-after-load", RFF, "            loaded.setup()\n            loaded.post_setup_hook()\n", "            loaded.setup()\n", "C19.e"),
 ]
+
+CORPUS += [
+    # ---------------------------------------------------------------- from the mutation sweep
+    V("C01", "cvrp-load-decreases", R + "cvrp/env.py", '(td["used_capacity"] + selected_demand)', '(td["used_capacity"] - selected_demand)', "C01.h"),
+    V("C01", "cvrptw-clock-minus-distance", R + "cvrptw/env.py", 'torch.max(td["current_time"] + distance, start_times) + duration', 'torch.max(td["current_time"] - distance, start_times) + duration', "C01.h"),
+    V("C01", "mtvrp-time-times-speed", R + "mtvrp/env.py", 'torch.max(td["current_time"] + distance / td["speed"], start_times)', 'torch.max(td["current_time"] + distance * td["speed"], start_times)', "C01.h"),
+    V("C01", "mtvrp-backhaul-cap-polarity", R + "mtvrp/env.py", ') | (~exceeds_cap_backhaul & (td["demand_backhaul"] > 0))', ') | (exceeds_cap_backhaul & (td["demand_backhaul"] > 0))', "C01.b"),
+    V("C01", "op-prize-decreases", R + "op/env.py", 'current_total_prize = td["current_total_prize"] + gather_by_index(', 'current_total_prize = td["current_total_prize"] - gather_by_index(', "C01.h"),
+]
